@@ -2841,6 +2841,9 @@ def groupby_reduce(
             preferred_method = "map-reduce"
             chunks_cohorts = {}
 
+        if method is None and reindex.blockwise and agg.chunk != (None,):
+            # reindexing at the block stage was requested: only map-reduce can honour it
+            preferred_method = "map-reduce"
         method = _choose_method(method, preferred_method, agg, by_, nax)
         if method == "cohorts" and not chunks_cohorts:
             # no label is present, so there are no cohorts to reduce separately
